@@ -141,9 +141,10 @@ pub struct CaseOut {
     pub violations: Vec<(String, String, vcommon::Json)>,
     pub notes: Vec<String>,
     pub inside_ops: bool,
+    pub mixed_endings: u64,
 }
 
-pub fn run_case(seed: u64, i: u64, cycles: usize, nsets: usize, skip_strip_token: bool) -> CaseOut {
+pub fn run_case(seed: u64, i: u64, cycles: usize, nsets: usize, fault_drop_token: bool) -> CaseOut {
     let mut out = CaseOut::default();
     let mut rng = Rng::for_case(seed, "C26", i);
     let mode = crate::c01::pick_mode(&mut rng);
@@ -182,7 +183,7 @@ pub fn run_case(seed: u64, i: u64, cycles: usize, nsets: usize, skip_strip_token
         return out;
     }
     let base_tokens = lex::significant(&base.sv, true);
-    let base_comments = lex::comments(&base.sv, true);
+    let base_comments: Vec<String> = lex::comments(&base.sv, true).into_iter().filter(|c| !c.starts_with("//# sourceMappingURL=")).collect();
     out.comments_in_default = base_comments.len();
     let base_trace = match svtrace(&base.sv, &d, &stim) {
         Ok(t) => Some(t),
@@ -197,6 +198,11 @@ pub fn run_case(seed: u64, i: u64, cycles: usize, nsets: usize, skip_strip_token
     out.status = "ok".into();
     for s in &sets {
         let b = match build(&d.text, s) {
+            // sensitivity experiment only: emulate "strip_comments also drops the token that carried the comment"
+            Ok(Ok(mut b)) if fault_drop_token && s.strip_comments => {
+                b.sv = b.sv.replacen(';', "", 1);
+                b
+            }
             Ok(Ok(b)) => b,
             Ok(Err(e)) => {
                 // the option changed acceptance of the design: not presentation-only
@@ -217,7 +223,8 @@ pub fn run_case(seed: u64, i: u64, cycles: usize, nsets: usize, skip_strip_token
         let toks = lex::significant(&b.sv, true);
         let replay = |what: &str| json!({"case_index": i, "option_set": s.name, "build": s.build, "format": s.format, "what": what, "design": d.text, "default_sv": base.sv, "option_sv": b.sv});
         if s.strip_comments {
-            let left = lex::comments(&b.sv, true);
+            // the `//# sourceMappingURL=` trailer is written by the emitter itself (a tool directive, not a source comment)
+            let left: Vec<String> = lex::comments(&b.sv, true).into_iter().filter(|c| !c.starts_with("//# sourceMappingURL=")).collect();
             out.comments_stripped += base_comments.len() as u64;
             if !left.is_empty() {
                 out.violations.push((
@@ -229,7 +236,7 @@ pub fn run_case(seed: u64, i: u64, cycles: usize, nsets: usize, skip_strip_token
         }
         if !s.expand_inside {
             out.tokens_compared += toks.len() as u64;
-            let same = if skip_strip_token && s.strip_comments { toks.len() == base_tokens.len() } else { toks == base_tokens };
+            let same = toks == base_tokens;
             if !same {
                 let k = toks.iter().zip(base_tokens.iter()).position(|(a, b)| a != b).unwrap_or(toks.len().min(base_tokens.len()));
                 let ctx = |t: &Vec<String>| t[k.saturating_sub(4)..(k + 4).min(t.len())].join(" ");
@@ -251,8 +258,9 @@ pub fn run_case(seed: u64, i: u64, cycles: usize, nsets: usize, skip_strip_token
                 ));
             }
             match s.newline {
-                Some("unix") if b.sv.contains('\r') => out.notes.push("newline_style=unix output still contains CR (inside a comment?)".into()),
-                Some("windows") if b.sv.replace("\r\n", "").contains('\n') => out.notes.push("newline_style=windows output contains a bare LF".into()),
+                // multi-line block comments are copied verbatim (their inner line endings are not converted): counted, not judged
+                Some("unix") if b.sv.contains('\r') => out.mixed_endings += 1,
+                Some("windows") if b.sv.replace("\r\n", "").contains('\n') => out.mixed_endings += 1,
                 _ => {}
             }
         }
@@ -304,7 +312,10 @@ pub fn main(args: Args) {
     let cycles = args.budget("cycles", 16, 40) as usize;
     let nsets = args.budget("option_sets", 12, 48) as usize;
     let n = args.budget("cases", 40, 1500);
-    let fault = args.get("fault_skip_token_check").is_some();
+    let fault = args.get("fault_drop_token").is_some();
+    if fault {
+        run.inconclusive("fault injection active (sensitivity experiment): verdict is not about /repo".into());
+    }
     let seed = args.seed;
     if let Some(rp) = &args.replay {
         let v: vcommon::Json = serde_json::from_str(&std::fs::read_to_string(rp).expect("replay")).unwrap();
@@ -352,6 +363,7 @@ fn report(run: &Run, i: u64, o: CaseOut) {
     run.count("cycles_compared", o.cycles_compared as i64);
     run.count("comments_stripped", o.comments_stripped as i64);
     run.count("comments_in_default_builds", o.comments_in_default as i64);
+    run.count("newline_outputs_with_mixed_endings_inside_block_comments_not_judged", o.mixed_endings as i64);
     if o.inside_ops {
         run.count("designs_with_inside_or_case", 1);
     }
